@@ -58,6 +58,23 @@ PROPS = {
             "thorough": {"modules": ["g_c10_v3", "g_c10_v5"], "generators": ["c10_thorough"], "timeout_s": 1200, "mem_gb": 10, "jobs": 12},
         },
     },
+    "C05": {
+        "level": "model_checking",
+        "claim": "The real common/poll.rs (GenericPollPacket::poll), instantiated with a harness PollHeader whose answers cover every behaviour class "
+                 "(header refused / empty packet / body decoded / bytes left over / eof error / other error), is checked by inductive steps: from the "
+                 "representation-invariant state of every stream position (a fresh future = dropped and re-created) one poll against every script of a family "
+                 "(Pending first; 1 byte; as much as offered; two reads; three reads; end of stream here; transport error here / after one byte) either returns Pending "
+                 "only if the transport did and leaves the invariant state of the new position, or returns exactly the result and byte count of one uninterrupted read, "
+                 "never requesting bytes beyond the frame. Chaining steps covers every delivery schedule and any number of re-creations for the enumerated streams.",
+        "note": "stream headers are concrete (minimal and non-minimal length spellings, 1..5 header bytes, remaining length 0..4 and 130), body bytes symbolic; positions and "
+                "scripts are concrete per step because a symbolic schedule makes every stream index symbolic (measured: does not terminate). The real v3/v5 Header "
+                "implementations are composed with this result in fe::strict (same generic source).",
+        "functions": ["GenericPollPacket::poll (twin copy of common/poll.rs, only #[repr(u8)] added to the state enum)", "GenericPollPacketState::default"],
+        "bounds": {"all": "17 streams x every position x 8 scripts; bodies up to 4 bytes (130 for the long-length prefix); header length 2..6"},
+        "outside": "bodies longer than 4 bytes at full length; schedules are covered by induction over the invariant, which is part of the trusted argument; "
+                   "the real Header types inside the poll loop (bytes read back from the MaybeUninit buffer are not constants for symbolic execution)",
+        "tiers": {"quick": {"modules": ["p_c05"], "timeout_s": 600, "mem_gb": 10, "jobs": 16}, "thorough": {"modules": ["p_c05"], "timeout_s": 1800, "mem_gb": 16}},
+    },
     "C19": {
         "level": "model_checking",
         "claim": "Every (Pid, u16) pair is symbolic: the solver shows + / - / += / -= / try_from agree with the cycle 1..=65535 closed form, "
